@@ -286,7 +286,7 @@ def participant_replay(w):
 
 # ------------------------------------------------------------------ Q1/Q2 prepare
 ck.declare('Q1_prepare_applies_nothing', 'prepare of one Put/Delete on a symbolic key next to a prepared transaction',
-           'the store is untouched; Yes => the request is stored under its id with the fresh handle, its operation, and an undo entry for its key captured from the present store; '
+           'the store is untouched; Yes => the request is stored under its id (replacing an earlier prepare of the same id) with the fresh handle, which holds the key in the lock table, its operation, and an undo entry for its key captured from the present store; '
            'Conflict => the prepared set is unchanged')
 ck.declare('Q2_prepared_keys_exclusive', 'same', 'a Yes vote is never given for a key that a still-prepared transaction covers, whatever the age of that transaction\'s lock')
 q_yes = q_conf = 0
@@ -297,7 +297,6 @@ for nstore in (0, 1, 2):
                 t2 = z3.BitVec('t2', 64)
                 k2 = Str(z3.BitVec('k2', 64))
                 d2 = Seq('u8', [Int(z3.BitVec('d2_0', 8), False)])
-                st.assume(t2 != pt.t1)
                 req = Struct('PrepareRequest', {Fq('PrepareRequest', 'tx_id'): Int(t2, False), Fq('PrepareRequest', 'operations'): Seq('Transaction', [mk_op(kind2, k2, d2)])}, lazy='REQ')
                 res = runq(st, 'TxParticipant::prepare', [ref(st.roots['part']), req])
                 ck.note_path_problem(res, f'prepare store={nstore} {kind1}/{kind2}')
@@ -316,12 +315,13 @@ for nstore in (0, 1, 2):
                     if vote.variant == 'Yes':
                         q_yes += 1
                         ids = [k.v for k in pm.keys]
-                        cs.append(z3.BoolVal(len(ids) == 2))
-                        if len(ids) == 2:
-                            new = pm.vals[1]
+                        dup = len(ids) == 1
+                        cs.append(z3.BoolVal(len(ids) == 2) if not dup else t2 == pt.t1)
+                        if len(ids) in (1, 2):
+                            new = pm.vals[-1]
                             ops = new.load(Fq('PreparedTx', 'operations'), None, f).items(f)
                             undo = new.load(Fq('PreparedTx', 'undo_log'), None, f).items(f)
-                            cs.append(ids[1] == t2)
+                            cs.append(ids[-1] == t2)
                             cs.append(new.load(Fq('PreparedTx', 'lock_handle'), 'u64', f).v == vote.fields[('Yes', 0)].v)
                             cs.append(z3.BoolVal(len(ops) == 1 and len(undo) == 1))
                             if len(undo) == 1:
@@ -329,8 +329,11 @@ for nstore in (0, 1, 2):
                                 present = z3.Or([kid == k2.id for kid, _ in snap]) if snap else z3.BoolVal(False)
                                 cs.append(u.fields[(u.variant, 0)].id == k2.id)
                                 cs.append(z3.BoolVal(u.variant == 'Restore') == present)
+                        # the vote's handle really holds the key afterwards (also after a duplicate prepare of the same transaction)
+                        L = lock_list(f)
+                        cs.append(z3.Or([z3.And(kid == k2.id, tx == t2, h == vote.fields[('Yes', 0)].v) for (kid, tx, h) in L] + [z3.BoolVal(False)]))
                         ck.require(exq, 'Q1_prepare_applies_nothing', r.pc, None, z3.And(cs), wit, lambda m, w: 'prepare-' + w['kind2'])
-                        ck.require(exq, 'Q2_prepared_keys_exclusive', r.pc, None, k2.id != pt.k1.id, wit, q2_key)
+                        ck.require(exq, 'Q2_prepared_keys_exclusive', r.pc, t2 != pt.t1, k2.id != pt.k1.id, wit, q2_key)
                     else:
                         q_conf += 1
                         cs.append(z3.BoolVal(len(pm.keys) == 1))
